@@ -18,6 +18,7 @@ error paths) are in Proofs.lean; the list-companions of the mutual inductions st
 theorems.
 -/
 import FaxVerif.C12.Proofs
+import FaxVerif.C12.Alive
 import FaxVerif.Generated.C12Table
 namespace FaxVerif.C12
 
@@ -645,5 +646,77 @@ example : errOf (tr Gen.cfg (.call "frexp" [.leaf "x" "double"])) = some (.unkno
 example : errOf (tr Gen.cfg (.call "ast" [.leaf "x" "double"])) = some (.attributeError "ast") := by decide +kernel
 example : errOf (tr Gen.cfg (.bin "Add" (.leaf "\"a\"" "string") (.leaf "1" "int"))) = some (.unknownType "string") := by
   decide +kernel
+
+/-! ## Part IV — the call stands where its operands are alive
+
+The model of where `visit_function_ast` puts the call (`columnCode`: the lines the arguments emit,
+then the line with the call, then the closing lines) against the scope clause of the Spec
+(`aliveGo` / `AliveSpec`).  The same `AliveSpec` is evaluated by the harness on the per-event method
+the real translator rendered, also for a second translation of the same query object. -/
+
+/-- For every list of arguments — constants, values out of a `First()` (which stays inside its loop
+and guard), accumulators of `Count()`/`Sum()` — in any order and number: in the code the model emits
+for a column whose value is the call, *every* line (whatever `sel` selects) mentions only variables
+declared in an enclosing block, provided the line with the call mentions only data members and the
+variables the arguments' values are made of.  In particular the call is evaluated inside the loop of
+every `First()` it reads from. -/
+theorem call_alive (sel : CodeLine → Bool) (members : List String) (args : List ArgShape) (call : CodeLine)
+    (hk : call.kind = .stmt) (hd : call.decls = [])
+    (hu : ∀ u ∈ call.uses, u ∈ members ∨ u ∈ args.flatMap ArgShape.vars) :
+    aliveGo sel [members] [] (columnCode args call) = true := by
+  apply aliveGo_mono
+  unfold columnCode
+  rw [befores_walk]
+  have hne : enter args [members] ≠ [] := enter_ne args _ (by simp)
+  have hvis : call.uses.all (visibleIn (enter args [members])) = true := by
+    rw [List.all_eq_true]
+    intro u huu
+    rcases hu u huu with hm | hv
+    · exact enter_mono args _ u (by simp [visibleIn, hm])
+    · exact enter_vars args _ u hv
+  unfold aliveGo
+  simp only [hk, hd, hvis, allLines, Bool.not_true, Bool.false_or, Bool.true_and]
+  rw [declareIn_nil _ hne]
+  have := afters_walk args [members] [] (by simp)
+  rw [List.append_nil] at this
+  rw [this]
+  simp [aliveGo]
+
+/-- … hence the Spec holds of the model's code: if the line with the call is recognised as holding
+an expression that means `e`, `AliveSpec` accepts `columnCode`. -/
+theorem alive_spec_model (c : Cfg) (readme : List String) (leaves : List (String × String)) (e : PExpr)
+    (members : List String) (args : List ArgShape) (call : CodeLine)
+    (hk : call.kind = .stmt) (hd : call.decls = [])
+    (hu : ∀ u ∈ call.uses, u ∈ members ∨ u ∈ args.flatMap ArgShape.vars)
+    (hh : holdsCall c leaves e call = true) :
+    (AliveSpec c readme leaves e members (columnCode args call)).1 = true := by
+  unfold AliveSpec
+  by_cases hdoc : Documented readme e = true
+  · have hany : (columnCode args call).any (holdsCall c leaves e) = true := by
+      unfold columnCode
+      simp [List.any_append, hh]
+    have hnone := aliveCulprit_none (holdsCall c leaves e) _ _ _ (call_alive (holdsCall c leaves e) members args call hk hd hu)
+    simp [hdoc, hany, hnone]
+  · simp [hdoc]
+
+/-- The clause discriminates (1): the call emitted *after* the blocks of a `First()` were closed —
+what a scope captured before the arguments were evaluated gives — is rejected. -/
+theorem alive_discriminates_late :
+    aliveGo (fun l => l.text == "_col=std::abs(i_obj->pt());") [["_col"]] []
+      ((ArgShape.first "jets0" "is_first2" "i_obj1").before ++ (ArgShape.first "jets0" "is_first2" "i_obj1").after
+        ++ [⟨.stmt, "_col=std::abs(i_obj->pt());", [], ["_col", "i_obj1"]⟩]) = false := by decide
+
+/-- The clause discriminates (2): a call that mentions the loop variable of *another* piece of
+generated code (the text of an earlier translation handed out again) is rejected, although it stands
+inside a loop. -/
+theorem alive_discriminates_stale :
+    aliveGo (fun l => l.text == "_col=std::sqrt(i_obj->pt());") [["_col"]] []
+      [⟨.stmt, "", ["jets4"], []⟩, ⟨.forL, "", ["i_obj5"], ["jets4"]⟩, ⟨.openB, "", [], []⟩,
+       ⟨.stmt, "_col=std::sqrt(i_obj->pt());", [], ["_col", "i_obj1"]⟩, ⟨.closeB, "", [], []⟩] = false := by decide
+
+-- non-vacuity: the hypotheses of `call_alive` are met by the shape `fmax(X.First().pt(), X.Count())`
+example : aliveGo allLines [["_col"]] []
+    (columnCode [.first "jets0" "is_first2" "i_obj1", .agg "jets3" "aggResult5" "i_obj4"]
+      ⟨.stmt, "_col=std::fmax(i_obj->pt(),aggResult);", [], ["_col", "i_obj1", "aggResult5"]⟩) = true := by decide
 
 end FaxVerif.C12
